@@ -63,8 +63,8 @@ SPEC = {
         "prime p, prime n (Znumtheory.prime), padd_associative (associativity of the chord-tangent addition on curve points), "
         "sqrt_correct (c^((p+1)/4) is a square root of every square; used by recover_sign / ecdh_sym / compress_parse only). "
         "Proved, not assumed: closure, commutativity, identity/inverses, n*G = O (kernel computation + jacobian_correct), Jacobian = affine",
-        "field layer: Field.Normalize / SetAdd / MulInt / Negate / IsOdd / IsZero / Equals / SetInt / SetB32 / GetB32 (10x26-bit limbs) are TRANSLATED on this run by /verif/translator (stage4.go -> Gen/FieldLimbs.v: a Field is its ten limbs, a modified pointer receiver is returned, `for c != 0` is a fuelled loop whose exhaustion is Panic, constant-bound loops are unrolled), validated on this run against the real methods on generated limb tuples (limbs read / written through unsafe.Pointer), and PROVED to implement arithmetic modulo p (C14_Normalize_correct .. C14_Equals_correct, C14_SetB32_correct / C14_GetB32_correct and round trips; Proofs/FieldLimbs.v, Proofs/FieldBytes.v)",
-        "still compared with the model only, not proved: Field.Mul / Sqr / Inv / Sqrt, the group code on top (Jacobian formulas in limb form, wNAF, endomorphism split, precomputed tables), and that the group code keeps every Field within the magnitude premises of the limb theorems",
+        "field layer: Field.Normalize / SetAdd / MulInt / Negate / IsOdd / IsZero / Equals / SetInt / SetB32 / GetB32 / Mul / Sqr (10x26-bit limbs) are TRANSLATED on this run by /verif/translator (stage4.go -> Gen/FieldLimbs.v: a Field is its ten limbs, a modified pointer receiver is returned, `for c != 0` is a fuelled loop whose exhaustion is Panic, constant-bound loops are unrolled), validated on this run against the real methods on generated limb tuples (limbs read / written through unsafe.Pointer), and PROVED to implement arithmetic modulo p (C14_Normalize_correct .. C14_Equals_correct, C14_SetB32_correct / C14_GetB32_correct and round trips; C14_Mul_correct / C14_Sqr_correct for magnitude <= 8; Proofs/FieldLimbs.v, Proofs/FieldBytes.v, Proofs/FieldMul.v)",
+        "still compared with the model only, not proved: Field.Inv / Sqrt / InvVar, the group code on top (Jacobian formulas in limb form, wNAF, endomorphism split, precomputed tables), and that the group code keeps every Field within the magnitude premises of the limb theorems",
         "translator tables_crypto.go (secp256k1 constants -> Gen/SecpConsts.v)",
     ],
     "assumptions": [
